@@ -10,6 +10,8 @@ import (
 	"os"
 	"strconv"
 	"strings"
+	"sync"
+	"time"
 )
 
 var (
@@ -159,3 +161,27 @@ func Concretize(s string) string { return s }
 // PermuteRange switches symbolic permutation of map / sync.Map iteration order on or off
 // (natively a no-op: the Go runtime randomises it).
 func PermuteRange(on bool) {}
+
+var (
+	barMu      sync.Mutex
+	barArrived = map[int]int{}
+)
+
+// Barrier(id, n): under the engine a scheduling point; natively the caller waits (at most
+// 100ms) until n goroutines have arrived at barrier id - this realises the interleaving
+// "all parties are inside their callbacks at the same time" deterministically.
+func Barrier(id, n int) {
+	barMu.Lock()
+	barArrived[id]++
+	barMu.Unlock()
+	deadline := time.Now().Add(100 * time.Millisecond)
+	for time.Now().Before(deadline) {
+		barMu.Lock()
+		a := barArrived[id]
+		barMu.Unlock()
+		if a >= n {
+			return
+		}
+		time.Sleep(200 * time.Microsecond)
+	}
+}
